@@ -6,8 +6,9 @@ import Flowjaxv.Proofs.DistTheory
 `MassOK μ b c` / `LawOK μ b c` are the two global facts one layer has to supply (for every
 integrand / every base density); `transformed_mass`, `nest_mass`, `transformed_law`, `nest_law`
 push them through the generated `Transformed.logProb` / `Transformed.sample` and through any
-depth of `nestTransformed`.  `InvJac`, `FwdJac` (one real variable, kinks allowed) and `InvJacN`
-(finite-dimensional) are the checkable hypotheses that imply them.
+depth of `nestTransformed`.  `InvJac`, `FwdJac` (one real variable, kinks allowed) and `InvJacN`,
+`FwdJacN` (finite-dimensional, finitely many pieces) are the checkable hypotheses that imply them;
+`InvJacN.invert` is the `Invert(·)` orientation.
 -/
 open Gen Set MeasureTheory
 
@@ -162,31 +163,96 @@ section nD
 variable {E C K : Type} [NormedAddCommGroup E] [NormedSpace ℝ E] [FiniteDimensional ℝ E]
   [MeasurableSpace E] [BorelSpace E]
 
-/-- the layer is a lawful bijection of `E`, its inverse is differentiable with invertible
-Jacobian `D y`, and the inverse log-det it reports is `log |det D y|` -/
+/-- the layer is a lawful bijection of `E`, its INVERSE map is (piecewise, `Mass.PiecewiseFDeriv`: finitely many
+measurable pieces, derivative within the piece at piece boundaries) differentiable with invertible Jacobian `D y`,
+and the inverse log-det it reports is `log |det D y|` -/
 structure InvJacN (b : Bij E C ℝ) (c : C) : Prop where
   lawful : b.Lawful univ univ
-  jac : ∃ D : E → E →L[ℝ] E, ∀ y, HasFDerivAt (fun y => b.inv y c) (D y) y ∧ (D y).det ≠ 0 ∧
-    (b.invLd y c).2 = Real.log |(D y).det|
+  jac : ∃ D : E → E →L[ℝ] E, PiecewiseFDeriv (fun y => b.inv y c) D ∧
+    ∀ y, (D y).det ≠ 0 ∧ (b.invLd y c).2 = Real.log |(D y).det|
+
+/-- the layer is a lawful bijection of `E`, its FORWARD map is (piecewise) differentiable with invertible Jacobian
+`J x`, and the inverse log-det it reports is `-log |det J (inverse y)|` -/
+structure FwdJacN (b : Bij E C ℝ) (c : C) : Prop where
+  lawful : b.Lawful univ univ
+  jac : ∃ J : E → E →L[ℝ] E, PiecewiseFDeriv (fun x => b.fwd x c) J ∧ (∀ x, (J x).det ≠ 0) ∧
+    ∀ y, (b.invLd y c).2 = -Real.log |(J (b.inv y c)).det|
+
+/-- the everywhere-differentiable case -/
+theorem InvJacN.of_hasFDerivAt {b : Bij E C ℝ} {c : C} (hL : b.Lawful univ univ) (D : E → E →L[ℝ] E)
+    (h : ∀ y, HasFDerivAt (fun y => b.inv y c) (D y) y ∧ (D y).det ≠ 0 ∧
+      (b.invLd y c).2 = Real.log |(D y).det|) : InvJacN b c :=
+  ⟨hL, D, PiecewiseFDeriv.of_hasFDerivAt (fun y => (h y).1), fun y => (h y).2⟩
+
+theorem FwdJacN.of_hasFDerivAt {b : Bij E C ℝ} {c : C} (hL : b.Lawful univ univ) (J : E → E →L[ℝ] E)
+    (h : ∀ x, HasFDerivAt (fun x => b.fwd x c) (J x) x ∧ (J x).det ≠ 0)
+    (hld : ∀ y, (b.invLd y c).2 = -Real.log |(J (b.inv y c)).det|) : FwdJacN b c :=
+  ⟨hL, J, PiecewiseFDeriv.of_hasFDerivAt (fun x => (h x).1), fun x => (h x).2, hld⟩
 
 theorem InvJacN.massOK (μ : Measure E) [μ.IsAddHaarMeasure] {b : Bij E C ℝ} {c : C}
     (h : InvJacN b c) : MassOK μ b c := by
-  obtain ⟨D, hD⟩ := h.jac
+  obtain ⟨D, hd, hD⟩ := h.jac
   refine ⟨fun y => h.lawful.invLd_fst y c, fun p => ?_⟩
-  rw [← mass_preserved_inv μ (fun x => b.fwd x c) (fun y => b.inv y c) D (fun y => (hD y).1)
+  rw [← mass_preserved_inv_piecesN μ (fun x => b.fwd x c) (fun y => b.inv y c) D hd
     (fun x => h.lawful.left x trivial c) (fun y => h.lawful.right y trivial c) p]
   congr 1; funext y
-  rw [(hD y).2.2, Real.exp_log (abs_pos.mpr (hD y).2.1)]
+  rw [(hD y).2, Real.exp_log (abs_pos.mpr (hD y).1)]
 
 theorem InvJacN.lawOK (μ : Measure E) [μ.IsAddHaarMeasure] {b : Bij E C ℝ} {c : C}
     (h : InvJacN b c) : LawOK μ b c := by
-  obtain ⟨D, hD⟩ := h.jac
-  have := fun p => pushforward_density_inv μ (fun x => b.fwd x c) (fun y => b.inv y c) D
-    (fun y => (hD y).1) (fun x => h.lawful.left x trivial c) (fun y => h.lawful.right y trivial c) p
+  obtain ⟨D, hd, hD⟩ := h.jac
+  have := fun p => pushforward_density_inv_piecesN μ (fun x => b.fwd x c) (fun y => b.inv y c) D hd
+    (fun x => h.lawful.left x trivial c) (fun y => h.lawful.right y trivial c) p
   refine ⟨fun y => h.lawful.invLd_fst y c, (this 0).1, fun p => ?_⟩
   rw [(this p).2]
   congr 1; funext y
-  rw [(hD y).2.2, Real.exp_log (abs_pos.mpr (hD y).2.1)]
+  rw [(hD y).2, Real.exp_log (abs_pos.mpr (hD y).1)]
+
+theorem FwdJacN.exp_ld {b : Bij E C ℝ} {c : C} {J : E → E →L[ℝ] E} (hne : ∀ x, (J x).det ≠ 0)
+    (hld : ∀ y, (b.invLd y c).2 = -Real.log |(J (b.inv y c)).det|) (y : E) :
+    Real.exp (b.invLd y c).2 = |(J (b.inv y c)).det|⁻¹ := by
+  rw [hld y, Real.exp_neg, Real.exp_log (abs_pos.mpr (hne _))]
+
+theorem FwdJacN.massOK (μ : Measure E) [μ.IsAddHaarMeasure] {b : Bij E C ℝ} {c : C}
+    (h : FwdJacN b c) : MassOK μ b c := by
+  obtain ⟨J, hd, hne, hld⟩ := h.jac
+  refine ⟨fun y => h.lawful.invLd_fst y c, fun p => ?_⟩
+  rw [← mass_preserved_piecesN μ (fun x => b.fwd x c) (fun y => b.inv y c) J hd hne
+    (fun x => h.lawful.left x trivial c) (fun y => h.lawful.right y trivial c) p]
+  congr 1; funext y
+  rw [FwdJacN.exp_ld hne hld y]
+
+theorem FwdJacN.lawOK (μ : Measure E) [μ.IsAddHaarMeasure] {b : Bij E C ℝ} {c : C}
+    (h : FwdJacN b c) : LawOK μ b c := by
+  obtain ⟨J, hd, hne, hld⟩ := h.jac
+  have := fun p => pushforward_density_piecesN μ (fun x => b.fwd x c) (fun y => b.inv y c) J hd hne
+    (fun x => h.lawful.left x trivial c) (fun y => h.lawful.right y trivial c) p
+  refine ⟨fun y => h.lawful.invLd_fst y c, (this 0).1, fun p => ?_⟩
+  rw [(this p).2]
+  congr 1; funext y
+  rw [FwdJacN.exp_ld hne hld y]
+
+/-- the forward-direction facts as C02 states them (`transform_and_log_det` reports `log |det J x|`, and the log-det returned
+with the inverse is minus the forward one at the preimage) give `FwdJacN` -/
+theorem FwdJacN.of_fwdLd {b : Bij E C ℝ} {c : C} (hL : b.Lawful univ univ) (J : E → E →L[ℝ] E)
+    (hd : PiecewiseFDeriv (fun x => b.fwd x c) J)
+    (h : ∀ x, (J x).det ≠ 0 ∧ (b.fwdLd x c).2 = Real.log |(J x).det|)
+    (hanti : ∀ x, (b.invLd (b.fwd x c) c).2 = -(b.fwdLd x c).2) : FwdJacN b c := by
+  refine ⟨hL, J, hd, fun x => (h x).1, fun y => ?_⟩
+  have := hanti (b.inv y c)
+  rw [hL.right y trivial c] at this
+  rw [this, (h _).2]
+
+/-- **`Invert`**: if the FORWARD map of `b` is (piecewise) differentiable with invertible Jacobian `J x` and `b`'s own
+`transform_and_log_det` reports `log |det J x|`, then the GENERATED `Invert(b)` — whose `inverse_and_log_det` IS
+`b.transform_and_log_det` — satisfies `InvJacN`: this is the orientation `Transformed(base, Invert(b))` the flow
+factories build with `invert=True`, where `log_prob` evaluates only `b`'s forward methods. -/
+theorem InvJacN.invert {b : Bij E C ℝ} {c : C} (hL : b.Lawful univ univ) (J : E → E →L[ℝ] E)
+    (hd : PiecewiseFDeriv (fun x => b.fwd x c) J)
+    (h : ∀ x, (J x).det ≠ 0 ∧ (b.fwdLd x c).2 = Real.log |(J x).det|) :
+    InvJacN (Gen.Invert.mk b).toBij c :=
+  ⟨⟨fun _ _ _ => trivial, fun _ _ _ => trivial, fun y _ c => hL.right y trivial c, fun x _ c => hL.left x trivial c,
+    fun y c => hL.invLd_fst y c, fun x c => hL.fwdLd_fst x c⟩, J, hd, h⟩
 
 end nD
 end Mass
